@@ -161,6 +161,7 @@ def step (s : St) (line : List String) : St × String :=
     let srvs := (List.range servers.length).zip servers |>.map fun (i, a) => ({ id := i, addr := a } : Server)
     ({ cfg := cfg, alive := true, servers := srvs }, "ok")
   | "reaction" :: _ =>
+    if !s.alive then (s, if s.destroyed then "destroyed" else "no-channel") else
     let r : Reaction := { kind := (kv toks "kind").getD "cancel",
                           name := hexOfText ((kv toks "name").getD "r.example"),
                           qtype := kvNat toks "type" 1, tok := kvNat toks "tok" (900 + kvNat toks "idx" 0),
